@@ -59,11 +59,11 @@ int32_t psRsaParseAsnPubKey(psPool_t *pool,
     {
         goto L_FAIL;
     }
-    if (*p++ != 0)
+    if (keylen < 1)
     {
         goto L_FAIL;
     }
-    if (keylen < 1)
+    if (*p++ != 0)
     {
         goto L_FAIL;
     }
@@ -78,7 +78,8 @@ int32_t psRsaParseAsnPubKey(psPool_t *pool,
     psSha1Final(&dc.u.sha1, sha1KeyHash);
 # endif
 
-    if (getAsnSequence(&p, keylen, &seqlen) < 0)
+    /* keylen included the unused-bits octet consumed above. */
+    if (getAsnSequence(&p, keylen - 1, &seqlen) < 0)
     {
         goto L_FAIL;
     }
